@@ -25,8 +25,12 @@ import (
 )
 
 type fault struct {
-	side  string // "send" | "recv" | "eof"
-	at    int    // send: index (1-based) of the Send that fails; recv: responses delivered before the error
+	// side: "send" | "recv" | "eof" as described below; "send-late" = "send" whose status
+	// reaches the receive side 150 ms later; "recv-idle" = the stream fails on the receive
+	// side when everything queued has been answered and the client had converged;
+	// "recv-unused" = a client without session parameters, nothing ever queued, stream fails.
+	side  string
+	at    int // send: index (1-based) of the Send that fails; recv: responses delivered before the error
 	code  codes.Code
 	burst int    // further requests the application queues around the fault
 	after string // "close" | "reset"
@@ -53,6 +57,15 @@ func catalogue() []fault {
 			for at := 0; at <= 3; at++ {
 				out = append(out, fault{"eof", at, codes.OK, burst, after})
 			}
+			for _, c := range []codes.Code{codes.Unavailable, codes.Internal, codes.Canceled} {
+				for at := 1; at <= 6; at += 2 {
+					out = append(out, fault{"send-late", at, c, burst, after})
+				}
+				out = append(out, fault{"recv-idle", 0, c, burst, after})
+			}
+		}
+		for _, c := range faultCodes {
+			out = append(out, fault{"recv-unused", 0, c, 0, after})
 		}
 	}
 	return out
@@ -72,7 +85,7 @@ func TestCheck(t *testing.T) {
 		child.Fold(run, fmt.Sprintf("child-%d", b), o, false)
 	})
 	run.Assume("after a Send failure the stream's status is what Recv returns (the gRPC contract); a clean end of stream (EOF / status OK) is exercised for hangs and leaks only - no error is demanded there")
-	run.Finish("fault enumeration over a scripted stub stream: the Send with index 1..6 fails, or the stream fails on the receive side after 0..5 responses, for each of 8 gRPC status codes (plus clean EOF after 0..3 responses), while the application queues a burst of 1/3/6/20 further requests; then Close, or Reset + Connect on a fresh stream + a further exchange that must converge. Oracles (each wait under a watchdog, a firing counts only with a proven permanent block): every Q returns, Done is signalled, AwaitConverged returns the recorded error (never nil, never the context's), Close/Reset return, no goroutine with a frame of the client package survives, and after Reset the client has no stale pending operations, results or errors. Repeated per tier with different interleaving (thorough: 8 repetitions). Distinct = by fault case", 100, false)
+	run.Finish("fault enumeration over a scripted stub stream: the Send with index 1..6 fails, or the stream fails on the receive side after 0..5 responses, for each of 8 gRPC status codes (plus clean EOF after 0..3 responses; a Send failure whose status reaches the receive side 150 ms later; a receive-side failure when everything has been answered and the client had converged; a failure on a stream nothing was ever sent on), while the application queues a burst of 1/3/6/20 further requests; then Close, or Reset + Connect on a fresh stream + a further exchange that must converge. Oracles (each wait under a watchdog, a firing counts only with a proven permanent block): every Q returns, Done is signalled, AwaitConverged returns the recorded error (never nil, never the context's), Close/Reset return and the receiver is not inside Recv on the failed stream when they do, no goroutine with a frame of the client package survives, and after Reset the client has no stale pending operations, results or errors. Repeated per tier with different interleaving (thorough: 8 repetitions). Distinct = by fault case", 100, false)
 }
 
 func nhReq(id uint64) *spb.ModifyRequest {
@@ -129,7 +142,11 @@ func runCase(col sink, st *stepper, caseID string, f fault, rep int) {
 	problem := func(sig, txt string) {
 		col.Violation(caseID, sig, txt, map[string]any{"fault": f.String()})
 	}
-	c, err := client.New(client.ElectedPrimaryClient(&spb.Uint128{Low: 1}), client.PersistEntries())
+	copts := []client.Opt{client.ElectedPrimaryClient(&spb.Uint128{Low: 1}), client.PersistEntries()}
+	if f.side == "recv-unused" {
+		copts = nil // no session parameters, no election id: StartSending sends nothing
+	}
+	c, err := client.New(copts...)
 	if err != nil {
 		col.Fatal(err.Error())
 		return
@@ -138,8 +155,13 @@ func runCase(col sink, st *stepper, caseID string, f fault, rep int) {
 	ferr := status.Error(f.code, "injected stream failure")
 	fake.NewStream = func(s *drv.FakeStream) {
 		switch f.side {
-		case "send":
+		case "send", "send-late":
 			s.FailSendAt, s.FailErr = f.at, ferr
+			if f.side == "send-late" {
+				s.StatusDelay = 150 * time.Millisecond
+			}
+			autoAnswer(s, -1)
+		case "recv-idle", "recv-unused":
 			autoAnswer(s, -1)
 		case "recv":
 			get := autoAnswer(s, f.at)
@@ -184,6 +206,9 @@ func runCase(col sink, st *stepper, caseID string, f fault, rep int) {
 	// enough requests to reach the fault position, then the burst
 	id := uint64(1)
 	pre := 4
+	if f.side == "recv-unused" {
+		pre = 0
+	}
 	for k := 0; k < pre; k++ {
 		st.current = fmt.Sprintf("Q (request %d before the burst)", k+1)
 		c.Q(nhReq(id))
@@ -196,6 +221,25 @@ func runCase(col sink, st *stepper, caseID string, f fault, rep int) {
 		st.current = fmt.Sprintf("Q (burst request %d of %d)", k+1, f.burst)
 		c.Q(nhReq(id))
 		id++
+	}
+	if f.side == "recv-idle" || f.side == "recv-unused" {
+		// the healthy stream answers everything: the client converges, and only then the stream fails
+		st.current = "AwaitConverged on the healthy stream"
+		hctx, hcancel := context.WithTimeout(ctx, 20*time.Second)
+		herr := c.AwaitConverged(hctx)
+		hcancel()
+		if herr != nil {
+			if hctx.Err() != nil {
+				panic("watchdog")
+			}
+			problem("no-convergence-on-healthy-stream", fmt.Sprintf("AwaitConverged before the fault: %v", herr))
+			return
+		}
+		if rep%2 == 1 {
+			time.Sleep(time.Duration(rep*100) * time.Microsecond)
+		}
+		fake.Last().Fail(ferr)
+		col.Count("stream_failures_with_nothing_outstanding", 1)
 	}
 	st.current = "waiting for Done"
 	select {
@@ -213,10 +257,16 @@ func runCase(col sink, st *stepper, caseID string, f fault, rep int) {
 		// nothing is demanded after a clean end: pending operations simply stay pending
 		awaitFor = 50 * time.Millisecond
 	}
-	wctx, wcancel := context.WithTimeout(ctx, awaitFor)
-	aerr := c.AwaitConverged(wctx)
-	wcancel()
-	if f.side != "eof" {
+	// (with a late status, every other repetition reacts to Done by closing at once, while the
+	// receiver is still waiting for the stream's status)
+	closeAtOnce := f.side == "send-late" && rep%2 == 0
+	var aerr error
+	if !closeAtOnce {
+		wctx, wcancel := context.WithTimeout(ctx, awaitFor)
+		aerr = c.AwaitConverged(wctx)
+		wcancel()
+	}
+	if f.side != "eof" && !closeAtOnce {
 		switch e := aerr.(type) {
 		case nil:
 			problem("converged-despite-stream-failure", "AwaitConverged returned nil although the stream failed with "+f.code.String())
@@ -233,13 +283,24 @@ func runCase(col sink, st *stepper, caseID string, f fault, rep int) {
 			problem("stream-error-not-recorded", "Status() shows no send or receive error after the stream failed")
 		}
 	}
+	failed := fake.Last()
+	leftBehind := func(what string) {
+		// Close / Reset wait for the sender and the receiver: none of them can still be inside
+		// Recv on the failed stream when they return (decided by the stream's own counters, not by timing)
+		if failed.RecvInProgress() {
+			problem("receiver-left-behind-by-"+what, what+" returned while the client's receiver is still blocked in Recv on the failed stream")
+		}
+		col.Count("receiver_exit_checks_at_return_of_close_or_reset", 1)
+	}
 	switch f.after {
 	case "close":
 		st.current = "Close"
 		c.Close()
+		leftBehind("Close")
 	case "reset":
 		st.current = "Reset"
 		c.Reset()
+		leftBehind("Reset")
 		st0, _ := c.Status()
 		if len(st0.PendingTransactions) != 0 || len(st0.Results) != 0 || len(st0.SendErrs) != 0 || len(st0.ReadErrs) != 0 {
 			problem("stale-state-after-reset", fmt.Sprintf("after Reset: pending=%d results=%d sendErrs=%d readErrs=%d", len(st0.PendingTransactions), len(st0.Results), len(st0.SendErrs), len(st0.ReadErrs)))
@@ -278,6 +339,19 @@ func runCase(col sink, st *stepper, caseID string, f fault, rep int) {
 		}
 		if len(ids) != 8 || len(st1.PendingTransactions) != 0 {
 			problem("fresh-exchange-after-reset-incomplete", fmt.Sprintf("results for %d of 8 operations, %d pending", len(ids), len(st1.PendingTransactions)))
+		}
+		if f.side == "send-late" {
+			// whatever the failed stream still had to say must not reach the new session
+			time.Sleep(200 * time.Millisecond)
+			st2, _ := c.Status()
+			if len(st2.SendErrs)+len(st2.ReadErrs) != 0 {
+				problem("stale-error-after-reset", fmt.Sprintf("errors of the failed stream appear in the new session: send %v recv %v", st2.SendErrs, st2.ReadErrs))
+			}
+			select {
+			case <-c.Done():
+				problem("stale-done-after-reset", "Done is signalled on the healthy new session")
+			default:
+			}
 		}
 		col.Count("reset_reconnect_exchanges", 1)
 		st.current = "Close after Reset"
